@@ -52,6 +52,7 @@ def main():
             print(c, 'exit', rc, (viol[:1] or ['-'])[0][:150], (why[:1] or [''])[0][:160])
     finally:
         sh('git -C /repo checkout -- .')
+        sh('git checkout -- evidence', cwd=ROOT)     # evidence written while a mutant was applied is not evidence
     # (3) file it
     d = os.path.join(ROOT, 'seeded', name)
     os.makedirs(d, exist_ok=True)
